@@ -797,6 +797,21 @@ Definition update_node_id (w : world) (ref : nat) (newid : N) : world :=
     set_rnodes (aset newid ref (w_rnodes w2)) w2
   end.
 
+(* SMF-set takeover (session.go, Node ID IE in a Modification Request; after fix "takeover by a node that has its own
+   association moves the session"): if the new id names ANOTHER node object the session is handed over to it (the old
+   node keeps its id and its other sessions); otherwise the session's node object is re-keyed as before *)
+Definition move_sess (w : world) (s : sess) (ref' : nat) : world * sess :=
+  let s' := set_node ref' s in
+  let h1 := node_upd (s_node s) (fun n => mkNode (n_id n) (n_addr n) (delN (s_lid s) (n_sess n))) (w_heap w) in
+  let h2 := node_upd ref' (fun n => mkNode (n_id n) (n_addr n) (addN (s_lid s) (n_sess n))) h1 in
+  (set_heap h2 (set_dp (w_dp w) (set_slots_free (set_nth (N.to_nat (s_lid s - 1)) (Some s') (w_slots w)) (w_free w) w)), s').
+
+Definition takeover (w : world) (s : sess) (newid : N) : world * sess :=
+  match alookup newid (w_rnodes w) with
+  | Some ref' => if Nat.eqb ref' (s_node s) then (update_node_id w (s_node s) newid, s) else move_sess w s ref'
+  | None => (update_node_id w (s_node s) newid, s)
+  end.
+
 Definition handle_mod (w : world) (peer seq seid : N) (nid : ie_val N) (o : ops) (e : env)
   : res (world * list out) :=
   match lookup (w_slots w) seid with
@@ -807,8 +822,8 @@ Definition handle_mod (w : world) (peer seq seid : N) (nid : ie_val N) (o : ops)
     match nid with
     | IeBad => Ok (w, [])
     | _ =>
-      let w1 := match nid with IeVal id => update_node_id w (s_node s) id | _ => w end in
-      match run_categories e o mod_order (mkCtx s (w_dp w1) []) with
+      let '(w1, s1) := match nid with IeVal id => takeover w s id | _ => (w, s) end in
+      match run_categories e o mod_order (mkCtx s1 (w_dp w1) []) with
       | None => Ok (w, [])
       | Some (c, rs) =>
         let '(urrs, ies) := emit 0 true (s_urrs (c_s c)) rs in
@@ -859,8 +874,8 @@ Definition handle_mod_abort (w : world) (seid : N) (nid : ie_val N) (o : ops) (e
     match nid with
     | IeBad => Ok (w, [])
     | _ =>
-      let w1 := match nid with IeVal id => update_node_id w (s_node s) id | _ => w end in
-      match run_categories e o mod_order (mkCtx s (w_dp w1) []) with
+      let '(w1, s1) := match nid with IeVal id => takeover w s id | _ => (w, s) end in
+      match run_categories e o mod_order (mkCtx s1 (w_dp w1) []) with
       | None => Ok (w, [])
       | Some (c, _) =>
         match put_slot (set_dp (c_dp c) w1) (c_s c) with
